@@ -38,7 +38,7 @@ REQUIRED = {"match.instance_matches": {"quick": 3000, "thorough": 150000}, "args
             "wrapper.span_invariant_on_every_match": {"quick": 5000, "thorough": 250000}}
 REQUIRED_SEEN = {"literal_text_class": ["run_of_blanks_or_tab_or_nbsp_inside"], "matcher_selected_with": ["deprecated_alias_step_matcher", "use_step_matcher"], "console_encoding_while_loading": ["utf-8", "latin-1", "cp1252"], "registration_history": ["bad_definition_first"], "step_function_flavour": ["sync", "async_plain", "async_with_timeout", "behind_shared_decorator"], "step_module_imports_another": ["yes"],
                  "cucumber_expression_parameters": ["none", "1", "2", "no_match"],
-                 "project_default_given_by": ["use_default_step_matcher", "use_step_matcher_before_loading"], "matcher_kind": KINDS, "field_name_class": ["soft_keyword"], "custom_type_name": ["Color", "Colorful"], "token_kind": ["lit", "named", "int", "word", "float", "custom", "many", "optional", "rnamed", "runnamed", "roptional", "rbracket"]}
+                 "project_default_given_by": ["use_default_step_matcher", "use_step_matcher_before_loading"], "matcher_kind": KINDS, "field_name_class": ["soft_keyword"], "custom_type_name": ["Color", "Colorful"], "token_kind": ["lit", "named", "int", "word", "float", "custom", "many", "optional", "rnamed", "runnamed", "roptional", "rbracket", "roptchar"]}
 EXHAUSTIVE = {"quick": True, "thorough": True}
 EXHAUSTIVE_SCOPE = "all ordered registration histories up to the length bound over a 6-entry pattern pool x 3 step types"
 NSHARDS = {"quick": 16, "thorough": 16}
@@ -85,6 +85,9 @@ def gen_pattern(rng, kind, ntok=None):
             last_field = False
     if all(t[0] != "lit" for t in toks):
         toks.insert(0, ("lit", rng.choice(WORDS)))
+    if kind in ("re", "re0") and rng.random() < 0.15:
+        # the pattern STARTS with plain text whose last character is optional ("an? ...", "errors? ..."): both spellings match
+        toks.insert(0, ("roptchar",) + rng.choice([("a", "n"), ("error", "s"), ("colo", "u")]))
     return toks
 
 
@@ -111,6 +114,8 @@ def pattern_text(toks, kind):
             parts.append("{%s:Color?}" % t[1])
         elif k == "rnamed":
             parts.append(r"(?P<%s>\w+)" % t[1])
+        elif k == "roptchar":
+            parts.append(re.escape(t[1]) + re.escape(t[2]) + "?")
         elif k == "rbracket":
             # a character set that starts with '[' / contains '--' (legal; `re` only WARNS that such sets may change meaning one day)
             parts.append((r"(?P<%s>[[\](){}])" if t[1] in ("n1", "n3", "type") else r"(?P<%s>[\w.~~-]+)") % t[1])
@@ -136,6 +141,8 @@ def instance(toks, rng):
             pos += 1
         if k == "lit":
             raw, conv, name = t[1], None, None
+        elif k == "roptchar":
+            raw, conv, name = t[1] + (t[2] if rng.random() < 0.5 else ""), None, None
         elif k == "named":
             raw = rng.choice(["seven", "two words", "x", "Ünï"])
             conv, name = raw, t[1]
@@ -176,7 +183,7 @@ def instance(toks, rng):
                 fields.append((None, None, None, -1, -1, k))
                 continue
         pieces.append(raw)
-        if k != "lit":
+        if k not in ("lit", "roptchar"):
             fields.append((name, raw, conv, pos, pos + len(raw), k))
         pos += len(raw)
     return "".join(pieces), fields
@@ -189,6 +196,8 @@ def ref_regex(toks, permissive):
         k = t[0]
         if k == "lit":
             parts.append(re.escape(t[1]))
+        elif k == "roptchar":
+            parts.append(re.escape(t[1]) + "(?:" + re.escape(t[2]) + ")?")
         elif permissive:
             parts.append(r"(?:.*?)" if k in ("roptional", "optional", "many") else r"(?:.+?)")
         elif k == "named":
@@ -227,7 +236,7 @@ def near_misses(toks, text, rng):
             out.append(("wrong_case", re.sub(r"(?<!\S)%s(?!\S)" % re.escape(w), lambda m: swapped, text, count=1)))
         out.append(("changed_literal", re.sub(r"(?<!\S)%s(?!\S)" % re.escape(w), lambda m: w + "X", text, count=1)))
     collapsed = " ".join(text.split())
-    if collapsed != text and all(t[0] == "lit" or t[0] in ("int", "word", "float", "custom", "rnamed", "runnamed", "rbracket") for t in toks):
+    if collapsed != text and all(t[0] == "lit" or t[0] in ("int", "word", "float", "custom", "rnamed", "runnamed", "rbracket", "roptchar") for t in toks):
         # (only with fields that cannot swallow blanks themselves)
         out.append(("collapsed_whitespace", collapsed))
     out.append(("extra_prefix", "zzz " + text))
